@@ -7,7 +7,8 @@ guards at that point.  No code is executed."""
 import re
 from .tree import strip_casts, pp, short_fn
 
-GUARD_TYPES = ('std::lock_guard<', 'std::unique_lock<', 'std::scoped_lock<')
+GUARD_TYPES = ('std::lock_guard<', 'std::unique_lock<', 'std::scoped_lock<', 'std::shared_lock<')
+SHARED_GUARDS = ('std::shared_lock<',)      # reader side of a std::shared_mutex: holders of this mode run concurrently with each other
 # methods of library containers/optionals/iterators that return a reference/iterator *into* the object:
 ACCESSORS = {'front', 'back', 'at', 'operator[]', 'begin', 'end', 'cbegin', 'cend', 'rbegin', 'rend',
              'operator*', 'operator->', 'value', 'data', 'top', 'find', 'lower_bound', 'upper_bound'}
@@ -36,6 +37,10 @@ class Access:
 
     def mutexes(self):
         return {m for (m, _) in self.locks}
+
+    def shared_mutexes(self):
+        """mutexes held in shared (reader) mode only: acquisition ids of shared guards are negative"""
+        return {m for (m, a) in self.locks if a < 0} - {m for (m, a) in self.locks if a > 0}
 
     def __repr__(self):
         return '%s %s locks=%s in %s @%s' % (self.kind, disp(self.path), sorted(disp(m) for m in self.mutexes()), short_fn(self.fn), self.loc)
@@ -163,8 +168,9 @@ class LockAnalysis:
             if m in {mm for (mm, _) in self.locks}:
                 self.S.deadlocks.append((m, self.facts.rel(v['loc']), ctx.fn['q'], list(ctx.chain)))
             self._acq += 1
-            self.S.acquisitions.append((m, self._acq, self.facts.rel(v['loc']), ctx.fn['q']))
-            self.locks = self.locks | {(m, self._acq)}
+            acq = -self._acq if ts.startswith(SHARED_GUARDS) else self._acq
+            self.S.acquisitions.append((m, acq, self.facts.rel(v['loc']), ctx.fn['q']))
+            self.locks = self.locks | {(m, acq)}
             ctx.env[v['id']] = None
             return
         if init is None:
